@@ -27,7 +27,11 @@ def check_C03(run):
     bigs = [s for s in sc if '"more":2' in s or '"more":0' in s]
     bigs = bigs if thorough else run.rng.sample(bigs, 24)
     replay_validate(run, bigs, ["e2e", "-big"], "E2ETrace", E2E_TRACE, "C03 round trip with multi-MiB values", nontrivial=nt, shards=12)
-    # the bridge subprocess may be short-lived: everything it wrote before exiting must still arrive
+    # connections are independent also for large replies: five other clients make 1 MiB calls meanwhile, one reads late
+    xs = [s for s in sc if '"transport":"unixabs"' in s or '"transport":"tcp"' in s]
+    xs = xs if thorough else run.rng.sample(xs, min(24, len(xs)))
+    replay_validate(run, xs, ["e2e", "-cross"], "E2ETrace", E2E_TRACE, "C03 round trip while other connections carry large replies (one of them read late), single P",
+                    nontrivial=lambda c: any('"ev":"XL"' in l for l in c), shards=8)
     from props_tables import table_replay, TR_CFG, GEN_CFG
     be = run.generate("BridgeExitGen", GEN_CFG, ["be_scen.ndjson"])["be_scen.ndjson"]
     table_replay(run, be, ["bridgeexit"], "BridgeExit", TR_CFG, "C03 bridge subprocess that exits after writing its replies (1 / 3 / 20 replies of 10 B .. 70 KB, read at once or slowly)",
